@@ -81,6 +81,15 @@ CHECKS = {
                      "application submissions and late answers, from six connection start states and six application "
                      "behaviours; random scripts on 1..3 connections.",
                 ref="4 C07", note=NODE_NOTE + "; in-flight hop-by-hop ids are unique per connection (quantifier)."),
+    "C08": dict(cat="exploration", tech="lockstep node harness; reference routing model computed from the scenario "
+                "configuration predicts the one receiving application or the node's error answer per request",
+                text="All 32 typed application request commands x {none, each single, all, random subsets} of their "
+                     "required scalar AVPs removed x application ids x realms (own, additional, other peer's, foreign) "
+                     "x sending peers x 3 configurations (same id on different peers, unconfigured peer, raising and "
+                     "threading applications), plus untyped commands and base-protocol messages in both ready "
+                     "sub-states. Deliveries come from recording applications, answers and Failed-AVP content from "
+                     "the bytes on the socket decoded by the reference codec.",
+                ref="4 C08", note=NODE_NOTE + "; validate_received_request_avps on."),
 }
 
 NOT_YET = "check not built yet in this round (planned in DESIGN.md section 4); no claim is made"
